@@ -5,6 +5,18 @@ use crate::authoring::*;
 // ----- F O R W A R D -----------------------------------------------------------------
 
 fn pipeline_fwd(op: &Op, ctx: &dyn Context, operands: &mut dyn CoordinateSet) -> usize {
+    // Work on a full 4D copy of the operands: Otherwise intermediate results
+    // (e.g. the Z of a `cart | helmert | cart inv` pipeline) would be truncated
+    // to the dimensionality of the user's container between the steps
+    let mut buffer: Vec<Coor4D> = (0..operands.len()).map(|i| operands.get_coord(i)).collect();
+    let n = steps_fwd(op, ctx, &mut buffer);
+    for (i, c) in buffer.iter().enumerate() {
+        operands.set_coord(i, c);
+    }
+    n
+}
+
+fn steps_fwd(op: &Op, ctx: &dyn Context, operands: &mut dyn CoordinateSet) -> usize {
     let mut stack = Vec::new();
     let mut n = usize::MAX;
     for step in &op.steps {
@@ -34,6 +46,16 @@ fn pipeline_fwd(op: &Op, ctx: &dyn Context, operands: &mut dyn CoordinateSet) ->
 // ----- I N V E R S E -----------------------------------------------------------------
 
 fn pipeline_inv(op: &Op, ctx: &dyn Context, operands: &mut dyn CoordinateSet) -> usize {
+    // Work on a full 4D copy of the operands - see pipeline_fwd
+    let mut buffer: Vec<Coor4D> = (0..operands.len()).map(|i| operands.get_coord(i)).collect();
+    let n = steps_inv(op, ctx, &mut buffer);
+    for (i, c) in buffer.iter().enumerate() {
+        operands.set_coord(i, c);
+    }
+    n
+}
+
+fn steps_inv(op: &Op, ctx: &dyn Context, operands: &mut dyn CoordinateSet) -> usize {
     let mut stack = Vec::new();
     let mut n = usize::MAX;
     for step in op.steps.iter().rev() {
